@@ -78,6 +78,19 @@ class Atom:
 
 ZETA2_F = tofrac(1.6449340668482264)  # special.zeta.zeta2 as written in the source
 
+
+def zeta2_q():
+    """zeta2 as the current reading of the source's float gives it (pi-consistent reading: P^2/6)"""
+    return tofrac(1.6449340668482264)
+
+
+def pi2_3_q():
+    return tofrac(math.pi ** 2 / 3)
+
+
+def pi_q():
+    return tofrac(math.pi)
+
 TRUE_FN = {
     "log": lambda a: math.log(a),
     "sqrt": lambda a: math.sqrt(a),
@@ -285,13 +298,16 @@ class Ctx:
         elif at.fn == "li2":
             # Euler's reflection formula between two dilogarithm atoms whose arguments add up to one (sound; the
             # constant is the zeta2 float the code itself uses, read exactly): Li2(u) + Li2(1-u) = zeta2 - ln u ln(1-u)
+            # special values (sound): Li2(0) = 0, Li2(1) = zeta2
+            self.atom_facts.append(z3.Implies(at.arg == 0, v == 0))
+            self.atom_facts.append(z3.Implies(at.arg == 1, v == zval(zeta2_q())))
             if getattr(self, "li2_reflection", True):
                 for o in list(self.atoms.values()):
                     if o.fn == "li2" and o is not at and o.arg is not None and at.argw + o.argw == 1:
                         if self.proves_equal(at.arg + o.arg, z3.RealVal(1)):
                             lu = sym_log(S(at.arg, at.argw))
                             lw = sym_log(S(o.arg, o.argw))
-                            self.atom_facts.append(v + o.var == zval(ZETA2_F) - lu.t * lw.t)
+                            self.atom_facts.append(v + o.var == zval(zeta2_q()) - lu.t * lw.t)
         elif at.fn == "log":
             # sound a-priori facts: sign of log follows the position of arg w.r.t. 1,
             # and log u <= u - 1 (used only when a harness asks for facts)
@@ -1213,7 +1229,7 @@ class C:
         if bool(s.re > 0):
             return C(np.log(s.re) if not isinstance(s.re, S) else s.re.log(), 0)
         neg = -s.re
-        return C(np.log(neg) if not isinstance(neg, S) else neg.log(), PI_F)
+        return C(np.log(neg) if not isinstance(neg, S) else neg.log(), pi_q())
 
     def __repr__(s):
         return f"C({s.re!r}, {s.im!r})"
@@ -1244,7 +1260,7 @@ def li2_real(x):
     """Re Li2(x) for real x, as special.li2 returns it: above the cut Re Li2(x) = pi^2/3 - ln^2(x)/2 - Li2(1/x)"""
     if bool(x > 1):
         lg = x.log()
-        return PI2_3 - lg * lg / 2 - (1 / x).li2()
+        return pi2_3_q() - lg * lg / 2 - (1 / x).li2()
     return x.li2()
 
 
@@ -1252,7 +1268,7 @@ def li3(x):
     """Li3 = S_{2,1}; complex above the cut (as special.nielsen returns it): Re = Li3(1/x) + pi^2/3 ln x - ln^3 x/6, Im = -pi/2 ln^2 x"""
     if bool(x > 1):
         lg = x.log()
-        return C(_li3_atom(1 / x) + PI2_3 * lg - lg * lg * lg / 6, -(PI_F / 2) * lg * lg)
+        return C(_li3_atom(1 / x) + pi2_3_q() * lg - lg * lg * lg / 6, -(pi_q() / 2) * lg * lg)
     return _li3_atom(x)
 
 
